@@ -13,6 +13,8 @@ def norm_msg(msg):
     msg = msg.strip()
     if "Error defining function" in msg:
         msg = msg[msg.index("Error defining function"):]
+    # the quoted source text of a slicing panic may itself contain backticks: it ends the message
+    msg = re.sub(r"(is out of bounds of|is not a char boundary; it is inside .* of) `.*$", r"\1 `_`", msg, flags=re.S)
     msg = re.sub(r"`[^`]*`", "`_`", msg)
     msg = re.sub(r"[\w#]+(::[\w#<>]+)+", "P", msg)
     msg = re.sub(r"[0-9]+", "N", msg)
